@@ -29,8 +29,10 @@ CHECKS.update({
              "small-step exec model (all interleavings of compute children) and of every state of every validated trace; "
              "drivers: every 2-op program over all ops x 10 boundary immediates from 4-5 machine shapes (incl. stack 4095, "
              "memory 10239, inside a child), a slice (thorough: all) of 3-op programs, long random programs with loops, "
-             "jumps, compute and state reads, in overflow-checked (dev) and release builds; a panic is an event no "
-             "specification action accepts.",
+             "jumps, compute and state reads, and every single op on every stack of <=3 (thorough 4) words over "
+             "{MIN,-1,0,1,2,3,MAX} from 3 machine shapes plus the real limits, all in overflow-checked (dev) and release "
+             "builds; a panic is an event no specification action accepts, and a failing op must report the kind of typed "
+             "error that spec/ErrKinds.tla lists for it.",
         note="absence of panics is established for the explored programs, not proved; allocation aborts would kill the "
              "driver process (reported as a tool error with the case label).",
         technique="TLA+ VmExec/VmOps model-checked with TLC + " + TRACEVM),
